@@ -2130,10 +2130,13 @@ impl<T: Storage> Raft<T> {
                         "possible unapplied conf change"
                     } else {
                         let already_joint = confchange::joint(self.prs.conf());
-                        let want_leave = cc.changes.is_empty();
+                        // Only an empty change list with an automatic transition leaves a
+                        // joint config when it is applied; with an explicit or implicit
+                        // transition it asks to enter one, like any non-empty list.
+                        let want_leave = cc.leave_joint();
                         if already_joint && !want_leave {
                             "must transition out of joint config first"
-                        } else if !already_joint && want_leave {
+                        } else if !already_joint && cc.changes.is_empty() {
                             "not in joint state; refusing empty conf change"
                         } else {
                             ""
